@@ -6,25 +6,66 @@ let join = String.concat " ;; "
 let res_str (okf : 'a -> string) (r : 'a res) : string =
   match r with Ok a -> okf a | Err e -> "err " ^ slice_err e | Bug s -> "BUG " ^ sn s
 
-(* ---- group 1 ---- *)
-let eth bs =
-  let a = vres (vres_of (SlicedPacket.from_ethernet bs)) in
-  match rd bs (n_of_int 12), rd bs (n_of_int 13) with
-  | Some x, Some y ->
-    let b = shift_vres (n_of_int 14)
-        (vres_of (SlicedPacket.from_ether_type (be16 x y) (drop (n_of_int 14) bs))) in
-    join ["S.a=" ^ a; "S.b=" ^ vres b]
-  | _ -> join ["S.a=" ^ a; "S.b=-"]
-
-let ett et bs =
-  join ["S.a=" ^ vres (vres_of (SlicedPacket.from_ether_type (n_of_int et) bs));
-        "S.b=" ^ vres (vres_of (SlicedPacket.from_ip bs))]
-
-(* ---- group 2 ---- *)
-let olen_s = function Some s -> sn (s_len s) | None -> "0"
+(* ---- LaxPacketHeaders (format of harness/src/c06fmt.rs lax_headers) ---- *)
 let lax_pl p =
   Printf.sprintf "pl(%s,%s,%s,%s,%s)" (b01 p.lipp_incomplete) (sn p.lipp_number) (b01 p.lipp_fragmented)
     (src_tag p.lipp_src) (win (win_of p.lipp_slice))
+let sll_ptype = function
+  | SllIgnored v -> "ign:" ^ sn v | SllNetlink v -> "netlink:" ^ sn v | SllGre v -> "gre:" ^ sn v
+  | SllEtherType v -> "et:" ^ sn v | SllNonstandard v -> "nonstd:" ^ sn v
+let lh_payload_str = function
+  | LHpEmpty -> "empty"
+  | LHpEther e ->
+    Printf.sprintf "ether(%s,%s,%s,%s)" (b01 e.lep_incomplete) (sn e.lep_ether_type) (src_tag e.lep_src)
+      (win (win_of e.lep_slice))
+  | LHpMacsecMod (i, s) -> Printf.sprintf "macsecmod(%s,%s)" (b01 i) (win (win_of s))
+  | LHpIp p -> lax_pl p
+  | LHpUdp (i, s) -> Printf.sprintf "udp(%s,%s)" (b01 i) (win (win_of s))
+  | LHpTcp (i, s) -> Printf.sprintf "tcp(%s,%s)" (b01 i) (win (win_of s))
+  | LHpIcmpv4 (i, s) -> Printf.sprintf "icmp4(%s,%s)" (b01 i) (win (win_of s))
+  | LHpIcmpv6 (i, s) -> Printf.sprintf "icmp6(%s,%s)" (b01 i) (win (win_of s))
+  | LHpLinuxSll (pt, s) -> Printf.sprintf "sll(%s,%s)" (sll_ptype pt) (win (win_of s))
+let stop_str = function None -> "none" | Some (e, l) -> "(" ^ slice_err e ^ ")@" ^ layer_tag l
+let some01 = function Some _ -> "1" | None -> "0"
+let lhp (p : lhpacket) =
+  Printf.sprintf "ok layers=%s%d%s%s pay=%s stop=%s" (some01 p.lh_link) (List.length p.lh_exts)
+    (some01 p.lh_net) (some01 p.lh_transport) (lh_payload_str p.lh_payload) (stop_str p.lh_stop)
+
+(* ---- group 1 ---- *)
+let eth bs =
+  let a = vres (vres_of (SlicedPacket.from_ethernet bs)) in
+  let qa = res_str lhp (LaxPacketHeaders.from_ethernet bs) in
+  match rd bs (n_of_int 12), rd bs (n_of_int 13) with
+  | Some x, Some y ->
+    let k = n_of_int 14 in
+    let b = shift_vres k (vres_of (SlicedPacket.from_ether_type (be16 x y) (drop k bs))) in
+    (* what C06_laxheaders_ethernet_eq_ethertype says from_ethernet is, computed from from_ether_type *)
+    let qb = lh_behind k (HlEthernet2 (n_of_int 0, take k bs))
+        (LaxPacketHeaders.from_ether_type (be16 x y) (drop k bs)) in
+    join ["S.a=" ^ a; "S.b=" ^ vres b; "Q.a=" ^ qa; "Q.b=" ^ res_str lhp qb]
+  | _ -> join ["S.a=" ^ a; "S.b=-"; "Q.a=" ^ qa]
+
+let sll bs =
+  let a = vres (vres_of (SlicedPacket.from_linux_sll bs)) in
+  let qa = res_str lhp (LaxPacketHeaders.from_linux_sll bs) in
+  match sll_head bs with
+  | SllEther et ->
+    let k = n_of_int 16 in
+    let b = shift_vres k (vres_of (SlicedPacket.from_ether_type et (drop k bs))) in
+    let qb = lh_behind k (HlLinuxSll (n_of_int 0, take k bs)) (LaxPacketHeaders.from_ether_type et (drop k bs)) in
+    join ["S.a=" ^ a; "S.b=" ^ vres b; "Q.a=" ^ qa; "Q.b=" ^ res_str lhp qb; "cls=ether:" ^ sn et]
+  | c ->
+    join ["S.a=" ^ a; "S.b=-"; "Q.a=" ^ qa; "Q.b=-";
+          "cls=" ^ (match c with SllShort -> "short" | SllReject _ -> "reject" | _ -> "other")]
+
+let ett et bs =
+  join ["S.a=" ^ vres (vres_of (SlicedPacket.from_ether_type (n_of_int et) bs));
+        "S.b=" ^ vres (vres_of (SlicedPacket.from_ip bs));
+        "Q.a=" ^ res_str lhp (LaxPacketHeaders.from_ether_type (n_of_int et) bs);
+        "Q.b=" ^ res_str lhp (LaxPacketHeaders.from_ip bs)]
+
+(* ---- group 2 ---- *)
+let olen_s = function Some s -> sn (s_len s) | None -> "0"
 let rec_v4 v = Printf.sprintf "ok 4 h=%s x=%s %s" (win (win_of v.v4_header)) (olen_s v.v4_auth) (vip (view_ipp v.v4_payload))
 let rec_v6 v = Printf.sprintf "ok 6 h=%s x=%s %s" (win (win_of v.v6_header)) (sn (s_len v.v6_exts.x6_slice)) (vip (view_ipp v.v6_payload))
 let rec_lv4 v stop = Printf.sprintf "ok 4 h=%s x=%s %s stop=%s" (win (win_of v.lv4_header)) (olen_s v.lv4_auth) (lax_pl v.lv4_payload) stop
@@ -35,6 +76,10 @@ let rec_h (h, p) =
   match h with
   | IhV4 (hd, a) -> Printf.sprintf "ok 4 h=%s x=%s %s" (win (win_of hd)) (olen_s a) (vip (view_ipp p))
   | IhV6 (hd, x) -> Printf.sprintf "ok 6 h=%s x=%s %s" (win (win_of hd)) (sn (exts6_len x)) (vip (view_ipp p))
+let rec_hl stopf ((h, p), st) =
+  match h with
+  | IhV4 (hd, a) -> Printf.sprintf "ok 4 h=%s x=%s %s stop=%s" (win (win_of hd)) (olen_s a) (lax_pl p) (stopf st)
+  | IhV6 (hd, x) -> Printf.sprintf "ok 6 h=%s x=%s %s stop=%s" (win (win_of hd)) (sn (exts6_len x)) (lax_pl p) (stopf st)
 
 let ipb bs =
   let s = mk_slice bs in
@@ -49,6 +94,9 @@ let ipb bs =
     "IpHeaders=" ^ res_str rec_h (IpHeaders.from_slice s);
     "IpHeaders4=" ^ res_str rec_h (IpHeaders.from_ipv4_slice s);
     "IpHeaders6=" ^ res_str rec_h (IpHeaders.from_ipv6_slice s);
+    "IpHeadersLax=" ^ res_str (rec_hl stop_exts) (LaxIpHeaders.from_slice_lax s);
+    "IpHeaders4Lax=" ^ res_str (rec_hl stop_auth) (LaxIpHeadersSpecific.from_ipv4_slice_lax s);
+    "IpHeaders6Lax=" ^ res_str (rec_hl stop_exts) (LaxIpHeadersSpecific.from_ipv6_slice_lax s);
   ]
 
 (* ---- group 3 ---- *)
@@ -87,6 +135,7 @@ let run (line : string) : string =
   | [entry; h] ->
     let bs = bytes_of_hex h in
     if entry = "eth" then eth bs
+    else if entry = "sll" then sll bs
     else if entry = "et4" then ett 2048 bs
     else if entry = "et6" then ett 34525 bs
     else if entry = "ipb" then ipb bs
